@@ -571,12 +571,9 @@ def _unparse_timezone(tzinfo):
     if tzinfo == pytz.utc:
         return "Z"
 
-    hours = math.floor(tzinfo._minutes / 60)
-    minutes = tzinfo._minutes % 60
-
-    if hours > 0:
-        return "+%02d:%02d" % (hours, minutes)
-    return "-%02d:%02d" % (abs(hours), minutes)
+    sign = "-" if tzinfo._minutes < 0 else "+"
+    hours, minutes = divmod(abs(tzinfo._minutes), 60)
+    return "%s%02d:%02d" % (sign, hours, minutes)
 
 
 _types = [
